@@ -2,7 +2,7 @@
 //
 // Case kinds (fields separated by one blank; byte strings in hex, "-" = empty):
 //
-//	uri     <passes p> <finalNL> <file> <line tokens...>
+//	uri     <passes p>[L] <finalNL> <file> <line tokens...>     (L: provider with preload: true)
 //	uripost <passes p> <finalNL> <file> <line tokens...>
 //	raw     <passes p> <finalNL> <file> <line tokens...>
 //	json    <passes p> <array 0|1> <file> <entity tokens...>
@@ -29,7 +29,9 @@ func runCase(c string) string {
 	if len(f) < 4 {
 		return "bad-case"
 	}
-	p, _ := strconv.Atoi(f[1])
+	// passes field: "<p>" or "<p>L" (L = with preload: true)
+	preload := strings.HasSuffix(f[1], "L")
+	p, _ := strconv.Atoi(strings.TrimSuffix(f[1], "L"))
 	file := vh.UnHex(f[3])
 	n := 0
 	for _, t := range f[4:] {
@@ -39,9 +41,9 @@ func runCase(c string) string {
 	}
 	switch f[0] {
 	case "uri", "uripost", "raw":
-		return a07ammo.RunProvider(f[0], file, p*n+1, 0, 0)
+		return a07ammo.RunProviderOpt(f[0], file, p*n+1, 0, 0, preload)
 	case "json":
-		return a07ammo.RunProvider("jsonline", file, p*n+1, 0, 0)
+		return a07ammo.RunProviderOpt("jsonline", file, p*n+1, 0, 0, preload)
 	}
 	return "unknown-case"
 }
